@@ -119,7 +119,7 @@ Produce(w, e) ==
     [] e.ev = "backfill" ->
          [w EXCEPT !.objs = Put(@, e.o, [w.objs[e.o] EXCEPT !.buf = RLFill(@, e.id, e.v), !.pend = @ \ {e.id}])]
     [] e.ev = "clear" -> [w EXCEPT !.objs = Put(@, e.o, EmptyObj)]
-    [] e.ev = "take" -> [w EXCEPT !.objs = Put(Put(@, e.to, w.objs[e.o]), e.o, EmptyObj)]
+    [] e.ev = "take" -> [w EXCEPT !.objs = Put(Put(@, e.to, [w.objs[e.o] EXCEPT !.kin = TRUE]), e.o, EmptyObj)]
     [] e.ev = "clone" -> LET src == [w.objs[e.o] EXCEPT !.kin = TRUE] IN [w EXCEPT !.objs = Put(Put(@, e.o, src), e.to, src)]
     [] e.ev = "clone_from" -> LET src == [w.objs[e.o] EXCEPT !.kin = TRUE] IN [w EXCEPT !.objs = Put(Put(@, e.o, src), e.to, src)]
     [] e.ev = "drop" -> [w EXCEPT !.objs = Del(@, e.o)]
